@@ -730,11 +730,13 @@ impl Shared {
                     if !refs.is_empty() || !well_formed(&def.metrics) {
                         self.nontrivial = true;
                     }
-                    let before = reg.contains(name);
-                    let why = {
-                        let r: &TemplateRegistry = reg;
-                        refusal(name, def, &|n| r.contains(n))
-                    };
+                    // what is registered is what the history says (the harness's own record), not what the
+                    // registry under test answers when asked
+                    let before = self.accepted.contains_key(name);
+                    if reg.contains(name) != before {
+                        self.fails.push(("C18:register-effect".into(), "contains-disagrees-with-history".into(), format!("{}: contains({:?}) = {} but the history says {}", short, name, !before, before)));
+                    }
+                    let why = refusal(name, def, &|n| self.accepted.contains_key(n));
                     let res = do_register(reg, name, def, *real);
                     let after = reg.contains(name);
                     match &res {
@@ -780,11 +782,17 @@ impl Shared {
                 }
                 ROp::Clear => {
                     reg.clear();
+                    if let Some(n) = self.accepted.keys().find(|n| reg.contains(n)) {
+                        self.fails.push(("C18:register-effect".into(), "clear-kept".into(), format!("{:?} still reported as registered after clear()", n)));
+                    }
                     self.accepted.clear();
                     self.reg_only = true;
                     self.answers.push("ok".into());
                 }
                 ROp::Has(n) => {
+                    if reg.contains(n) != self.accepted.contains_key(n) {
+                        self.fails.push(("C18:register-effect".into(), "contains-disagrees-with-history".into(), format!("contains({:?}) = {} but the history says {}", n, reg.contains(n), self.accepted.contains_key(n))));
+                    }
                     self.answers.push(if reg.contains(n) { "1" } else { "0" }.into());
                 }
             }
